@@ -1010,15 +1010,142 @@ impl SubCheckT for Abi {
     }
 }
 
+// ---------------------------------------------------------------------------
+// counts and accessors through the C ABI on diagrams of thousands of nodes
+// ---------------------------------------------------------------------------
+
+#[derive(Clone, Debug, Serialize, Deserialize)]
+pub struct BigAbiCase {
+    /// number of variables of a pseudo-random function built by if-then-else on both sides (a random function of 16
+    /// variables has about 8000 nodes, many of them reached through regular and complemented edges)
+    pub n: u8,
+    pub seed: u64,
+}
+
+pub struct BigAbi;
+
+pub fn run_big_abi(case: &BigAbiCase, st: &mut Stats) -> CaseResult {
+    let n = (case.n as usize).clamp(8, 16);
+    let bit = |a: usize| splitmix(case.seed ^ (a as u64 >> 6).wrapping_mul(0x9E37_79B9_7F4A_7C15)) >> (a & 63) & 1 == 1;
+    unsafe {
+        let mgr = mk_bdd_manager_default_order(n as u64);
+        let nb = RobddBuilder::<AllIteTable<BddPtr>>::new(VarOrder::linear_order(n));
+        // Shannon expansion from the deepest variable upwards, level by level, on both sides in lock step
+        let mut layer_c: Vec<*mut CBdd> = (0..(1usize << n)).map(|a| if bit(a) { bdd_true(mgr) } else { bdd_false(mgr) }).collect();
+        let mut layer_n: Vec<BddPtr> = (0..(1usize << n)).map(|a| if bit(a) { nb.true_ptr() } else { nb.false_ptr() }).collect();
+        for v in (0..n).rev() {
+            // index bit v is the value of variable v: entries are indexed by the values of variables 0..v after this step
+            let half = 1usize << v;
+            let xc = bdd_var(mgr, v as u64, true);
+            let xn = nb.var(VarLabel::new_usize(v), true);
+            let mut next_c = Vec::with_capacity(half);
+            let mut next_n = Vec::with_capacity(half);
+            for a in 0..half {
+                next_c.push(bdd_ite(mgr, xc, layer_c[a | half], layer_c[a]));
+                next_n.push(nb.ite(xn, layer_n[a | half], layer_n[a]));
+            }
+            layer_c = next_c;
+            layer_n = next_n;
+        }
+        let (fc, fnat) = (layer_c[0], layer_n[0]);
+        let nodes = fnat.count_nodes();
+        ensure!(bdd_count_nodes(fc) == nodes, "C18/count-nodes", "bdd_count_nodes = {} but the native diagram built by the same calls has {} nodes", bdd_count_nodes(fc), nodes);
+        // the C handle and the native pointer denote the same function (sampled) and have the same top variable
+        for k in 0..64u64 {
+            let a = crate::big::assignment(case.seed ^ 0xC18, k, n);
+            ensure!(crate::big::bdd_eval(*fc, &a) == crate::big::bdd_eval(fnat, &a), "C18/function-differs-from-native", "a diagram of {} nodes built through bdd_var / bdd_ite differs from the native one on an assignment", nodes);
+        }
+        // real, complex and polynomial counts: weights are quarters (all partial sums are exact multiples of 2^-32)
+        let q = |v: usize, salt: u64| (1 + splitmix(case.seed ^ salt ^ (v as u64) << 12) % 3) as f64 / 4.0;
+        let wr = new_wmc_params_f64();
+        let mut nr = WmcParams::<RealSemiring>::default();
+        let wc = new_wmc_params_complex();
+        let mut nc = WmcParams::<Complex>::default();
+        let wp = new_wmc_params_poly();
+        let mut np_ = WmcParams::<Polynomial<RealSemiring>>::default();
+        for v in 0..n {
+            let h = q(v, 0x11);
+            wmc_param_f64_set_weight(wr, v as u64, 1.0 - h, h);
+            nr.set_weight(VarLabel::new_usize(v), RealSemiring(1.0 - h), RealSemiring(h));
+            let (re, im) = (q(v, 0x22), q(v, 0x33) - 0.5);
+            let (lo, hi) = (Complex { re: 1.0 - re, im: -im }, Complex { re, im });
+            wmc_param_complex_set_weight(wc, v as u64, lo, hi);
+            nc.set_weight(VarLabel::new_usize(v), lo, hi);
+            // low = 1 - h, high = h x  (degree = number of variables set to true, at most 16)
+            let (plo, phi) = (vec![1.0 - h], vec![0.0, h]);
+            wmc_param_poly_set_weight(wp, v as u64, plo.as_ptr(), plo.len(), phi.as_ptr(), phi.len());
+            let mk = |c: &Vec<f64>| {
+                let mut p = Polynomial::<RealSemiring>::zero();
+                for (i, x) in c.iter().enumerate() {
+                    p.coefficients[i] = RealSemiring(*x);
+                }
+                p.len = c.len();
+                p
+            };
+            np_.set_weight(VarLabel::new_usize(v), mk(&plo), mk(&phi));
+        }
+        for round in 0..2 {
+            let (c, nv) = (bdd_wmc(fc, wr), fnat.unsmoothed_wmc(&nr).0);
+            ensure!(c == nv, "C18/wmc-real", "bdd_wmc on a diagram of {} nodes (call {}) = {} but the native unsmoothed_wmc = {}", nodes, round + 1, c, nv);
+            let (c, nv) = (bdd_wmc_complex(fc, wc), fnat.unsmoothed_wmc(&nc));
+            ensure!(c.re == nv.re && c.im == nv.im, "C18/wmc-complex", "bdd_wmc_complex on a diagram of {} nodes = {:?} but the native unsmoothed_wmc = {:?}", nodes, c, nv);
+            let cpoly = bdd_wmc_poly(fc, wp);
+            let npoly = fnat.unsmoothed_wmc(&np_);
+            let mut buf = [0f64; 40];
+            let kl = polynomial_get_coeffs(cpoly, buf.as_mut_ptr(), 40);
+            let same = (0..32).all(|j| (if j < kl { buf[j] } else { 0.0 }) == npoly.coefficients[j].0);
+            ensure!(same, "C18/wmc-poly", "bdd_wmc_poly on a diagram of {} nodes has coefficients {:?} but the native count has {:?}", nodes, &buf[..kl.min(40)], npoly.coefficients.iter().map(|x| x.0).collect::<Vec<_>>());
+            destroy_polynomial(cpoly);
+        }
+        // children through the accessors: the high child of the root on both sides has the same count
+        if !fnat.is_const() {
+            let (hc, hn) = (bdd_high(fc), fnat.high());
+            let (c, nv) = (bdd_wmc(hc, wr), hn.unsmoothed_wmc(&nr).0);
+            ensure!(c == nv, "C18/wmc-real", "bdd_wmc on the high child of a diagram of {} nodes = {} but natively {}", nodes, c, nv);
+        }
+        free_wmc_params_f64(wr);
+        free_wmc_params_complex(wc);
+        destroy_wmc_params_poly(wp);
+        free_bdd_manager(mgr);
+        st.flag(
+            match nodes {
+                0..=1023 => "big.nodes.lt1024",
+                1024..=4095 => "big.nodes.1024-4095",
+                _ => "big.nodes.ge4096",
+            },
+            true,
+        );
+        if nodes >= 1024 {
+            st.mark_nontrivial();
+        }
+    }
+    Ok(())
+}
+
+impl SubCheckT for BigAbi {
+    type Case = BigAbiCase;
+    const NAME: &'static str = "c_api_large_diagrams";
+    const RULE: &'static str = "a pseudo-random function of 10..16 variables built by Shannon expansion through bdd_var / bdd_ite on a C manager and, call for call, natively (up to about 8000 nodes, shared in both polarities): bdd_count_nodes, the function on sampled assignments (C handle read by the harness's walk), bdd_wmc / bdd_wmc_complex / bdd_wmc_poly (twice each; weights in quarters so that every partial sum is exact) and the count of the root's high child equal the native values. Non-trivial: >= 1024 nodes";
+    fn cases(tier: Tier) -> u32 {
+        tier.pick(12, 200)
+    }
+    fn strategy(_tier: Tier) -> BoxedStrategy<BigAbiCase> {
+        (prop_oneof![1 => 10u8..=13, 2 => 14u8..=15, 3 => Just(16u8)], any::<u64>()).prop_map(|(n, seed)| BigAbiCase { n, seed }).boxed()
+    }
+    fn run(case: &BigAbiCase, st: &mut Stats) -> CaseResult {
+        run_big_abi(case, st)
+    }
+}
+
 pub fn property() -> Property {
     Property {
         id: "C18",
-        subs: vec![sub::<Abi>()],
+        subs: vec![sub::<Abi>(), sub::<BigAbi>()],
         fuzz: vec![],
         assumptions: vec![
             "the exported symbols are linked from the rlib (feature ffi) and called through extern \"C\" declarations mirroring the signatures in src/ffi; handles are never freed twice; leaked result boxes are ignored",
             "bdd_topvar of a constant is 0 (the library's documented TODO), so topvar is compared with the native var_safe() mapped the same way",
-            "managers hold <= 8 variables",
+            "call histories on managers of <= 8 variables (one model count in a hundred on 21/22 variables); sub-check c_api_large_diagrams: one function of 10..16 variables per case",
         ],
         nt_floor_percent: 15,
     }
